@@ -138,3 +138,54 @@ KERNELS = [
                         'LevelDB modelled by MemStore', 'meta files modelled by MemFS'],
            witnesses=2, prescribe=('sha256',), split_depth=10),
 ]
+
+
+def batch_config(shape):
+    '''Concrete companion (not a solver verdict): the atomicity that the crash model ASSUMES of a
+    batch is what the code asks LevelDB for.  The real storage class of the configured engine is
+    opened in a scratch directory; a batch that is abandoned by an exception must leave nothing
+    behind, a completed one everything (and a reopened database must still have it).'''
+    import os
+    import shutil
+    import tempfile
+    from electrumx.server.storage import db_class
+    eng = engine()
+    d = tempfile.mkdtemp(prefix='verif-c04-', dir=os.environ.get('VERIF_SCRATCH'))
+    cwd = os.getcwd()
+    try:
+        os.chdir(d)
+        cls = db_class('leveldb')
+        db = cls('probe', True)
+
+        class Boom(Exception):
+            pass
+        try:
+            with db.write_batch() as b:
+                b.put(b'k1', b'v1')
+                b.put(b'k2', b'v2')
+                raise Boom()
+        except Boom:
+            pass
+        eng.prove(db.get(b'k1') is None and db.get(b'k2') is None,
+                  'an abandoned write batch was (partly) written: batches are not configured to be atomic',
+                  {'signature': 'batch-not-atomic'})
+        with db.write_batch() as b:
+            b.put(b'k3', b'v3')
+            b.delete(b'k1')
+        db.close()
+        db = cls('probe', False)
+        eng.prove(db.get(b'k3') == b'v3' and [k for k, _v in db.iterator(prefix=b'k')] == [b'k3'],
+                  'a completed write batch is not durable / iteration is wrong', {'signature': 'batch-lost'})
+        db.close()
+        symx.observe('ok', True)
+    finally:
+        os.chdir(cwd)
+        shutil.rmtree(d, ignore_errors=True)
+
+
+KERNELS.append(
+    Kernel('BATCHCFG', batch_config, lambda tier: [{}],
+           desc='concrete companion: the real LevelDB storage class gives all-or-nothing, durable batches',
+           encodes=['electrumx/server/storage.py:LevelDB.open', 'db_class', 'Storage.__init__'],
+           bounds='one abandoned and one completed batch on a real LevelDB (concrete; not a solver verdict)', outside='-',
+           witnesses=1))
